@@ -42,6 +42,11 @@ CHECKS = {
     note='Trusted: z3, symx executor (numpy object arrays of symbolic values). Degree l in 2..3 quick / 2..10 thorough.',
     technique='symbolic execution on a small symbolic grid + z3 nonlinear real arithmetic',
     design='2/C15'),
+ 'C19': dict(
+    text='Bounded SMT validity checking: radiogenic, cooling, viscosity and melt-law functions executed symbolically; exp and x**b are atoms with instantiated monotonicity / functional-equation axioms; additivity, linearity, half-life, sign, monotonicity (two symbolic copies, inside and across guard regions), floors and Henning window values decided by z3.',
+    note='Trusted: z3, symx executor, the atom axioms (listed in evidence; a model that does not replay on the real code is reported as a harness error, never as a violation).',
+    technique='symbolic execution with transcendental atoms + two-copy monotonicity queries in z3 (nonlinear real arithmetic)',
+    design='2/C19'),
 }
 NOT_YET = {}
 ALL = ['C%02d' % i for i in range(1, 21)]
